@@ -1,7 +1,7 @@
 (** C05_ledger. CacheWeight::update against the sweeper's CacheWeight::delete, one lock-delimited action at a time: the entry guard makes the update atomic
     This file only pins statements: every theorem restates a lemma of proofs/ verbatim and is closed by it. *)
-From CacheD Require Import Base Ledger LedgerUpd.
-From CacheD.proofs Require Import LedgerUpdProofs.
+From CacheD Require Import Base Ledger LedgerUpd LedgerRun.
+From CacheD.proofs Require Import LedgerUpdProofs LedgerRunProofs.
 
 (** (C05 / C01, every interleaving of the worker's UpdateWeight and deletes with the sweeper's evictions, one
    lock-delimited action at a time; two deleters of one id: only one of them finds the entry): with the entry guard held across the update, whenever neither operation is half-way the total is exactly the
@@ -21,4 +21,20 @@ Theorem C05_guard_is_necessary :
   u_used (urun true u0 (unguarded_race ++ [SRemove 1; SSub])) = 0 /\ u_charges (urun true u0 (unguarded_race ++ [SRemove 1; SSub])) = [].
 Proof. exact unguarded_update_refuted. Qed.
 Print Assumptions C05_guard_is_necessary.
+
+(** (C05): and whenever neither thread is half-way through an operation, the total it shows is exactly the sum of
+   the charges *)
+Theorem C05_ledger_trace_exact_when_quiet :
+  forall max groups st, 0 < max ->
+  In st (gtrace (ginit max) groups) -> g_wpc st = WIdle -> g_spending st = None -> g_used st = charges_sum (g_charges st).
+Proof. exact ledger_trace_exact_when_quiet. Qed.
+Print Assumptions C05_ledger_trace_exact_when_quiet.
+
+(** (C05): the same for the update model - every observed state in which no update or removal is half-way shows
+   a total equal to the sum of the charges, whatever was charged at the start *)
+Theorem C05_update_trace_exact_when_quiet :
+  forall charges groups st, NoDup (map fst charges) ->
+  In st (utrace (uinit charges) groups) -> uquiet st -> u_used st = charges_sum (u_charges st).
+Proof. exact update_trace_exact_when_quiet. Qed.
+Print Assumptions C05_update_trace_exact_when_quiet.
 
